@@ -172,7 +172,7 @@ GROUPS = {
         ],
     },
     "metrics": {
-        "import": "Haiway.Bridge.Metrics", "open": "Haiway.MiniPy Haiway.Bridge.Metrics",
+        "import": "Haiway.Bridge.MetricsEndToEnd", "open": "Haiway.MiniPy Haiway.Bridge.Metrics",
         "defs": {
             "gRecord": Target("src/haiway/context/metrics.py", "ScopeMetrics", "record", ["metric", "merge"],
                               {"_metrics": 0, "_completed": 1}, {}, containers={"self._metrics"},
@@ -185,18 +185,21 @@ GROUPS = {
         "obligations": [
             ("record_refines", ["gRecord"], "RecordRefines gRecord",
              "intro emb s v mergeFn w hm he\n  unfold gRecord\n"
-             "  rcases ho : w.mergeOut with nv | e\n"
-             "  · cases hc : w.completed <;> cases hg : get s (w.tyOf (emb v)) <;>\n"
-             "      first\n"
-             "      | (intro hn; rename_i cur; have hcn := hn cur; cases hcv : emb cur <;>\n"
-             "          first | exact absurd hcv hcn | (metrics_eval <;> try simp_all))\n"
-             "      | (metrics_eval <;> try simp_all)\n"
-             "  · obtain ⟨c, n, rfl⟩ := he e ho\n"
-             "    cases hc : w.completed <;> cases hg : get s (w.tyOf (emb v)) <;>\n"
-             "      first\n"
-             "      | (intro hn; rename_i cur; have hcn := hn cur; cases hcv : emb cur <;>\n"
-             "          first | exact absurd hcv hcn | (metrics_eval <;> try simp_all))\n"
-             "      | (metrics_eval <;> try simp_all)"),
+             "  cases hc : w.completed <;> cases hg : get s (w.tyOf (emb v))\n"
+             "  case false.some cur =>\n"
+             "    simp (config := { zeta := true }) only [hg, Bool.false_eq_true, ↓reduceIte]\n"
+             "    intro hn\n"
+             "    have hcn := hn cur\n"
+             "    rcases ho : w.mergeBy mergeFn (emb cur) (emb v) with nv | e\n"
+             "    · cases hcv : emb cur <;> first | exact absurd hcv hcn | (rw [hcv] at ho; metrics_eval <;> try simp_all)\n"
+             "    · obtain ⟨c, n, rfl⟩ := he _ _ _ e ho\n"
+             "      cases hcv : emb cur <;> first | exact absurd hcv hcn | (rw [hcv] at ho; metrics_eval <;> try simp_all)\n"
+             "  all_goals first\n"
+             "    | (intro hn; rename_i cur; have hcn := hn cur; cases hcv : emb cur <;>\n"
+             "        first | exact absurd hcv hcn | (metrics_eval <;> try simp_all))\n"
+             "    | (metrics_eval <;> try simp_all)"),
+            # C10's fold law restated of the regenerated term (lock step with Metrics.recordAll over whole histories)
+            ("record_c10", ["gRecord"], "HistoryProps gRecord", "exact historyProps_of_refines record_refines"),
             ("ctx_record_refines", ["gCtxRecord"], "CtxRecordRefines gCtxRecord",
              "intro metric mergeFn w hr hl he\n  unfold gCtxRecord\n"
              "  cases hv : w.var <;> cases ho : w.recordOut\n"
